@@ -33,10 +33,14 @@ def fit_observed(name, kw, data, bounds=None):
     sys.setprofile(prof)
     with warnings.catch_warnings():
       warnings.simplefilter('ignore')
-      if bounds is not None:
-        est.fit(*args, bounds=bounds)
-      else:
-        est.fit(*args)
+      try:
+        if bounds is not None:
+          est.fit(*args, bounds=bounds)
+        else:
+          est.fit(*args)
+      except Exception as ex:
+        ex.solver_state = cap          # the locals of _fit are read also when it is left by an exception
+        raise
   finally:
     sys.setprofile(None)
     itml_mod._initialize_metric_mahalanobis = orig_init
@@ -123,6 +127,15 @@ def run(ctx):
     try:
       est, cap, A0 = fit_observed(name, kw, data, bounds)
     except Exception as ex:
+      Ax = getattr(ex, 'solver_state', {}).get('A')
+      if type(ex).__name__ == 'NonPSDError' and Ax is not None and np.isfinite(Ax).all():
+        ev = np.linalg.eigvalsh((Ax + Ax.T) / 2)
+        if ev[-1] > 0 and abs(ev[0]) <= 1e-10 * ev[-1]:
+          # the iterate is positive definite in exact arithmetic (C11_partial) but numerically singular (hard constraints that
+          # cannot all be met drive an eigenvalue to 0): its smallest eigenvalue is rounding noise, outside any rounding guarantee
+          ctx.count('fit_runs', 0, skipped=1)
+          ctx.hist('skipped_ill_conditioned', 'numerically singular iterate (|lambda_min| <= 1e-10 lambda_max): NonPSDError')
+          continue
       ctx.fail_input('fit_runs', '%s raises %s' % (name, type(ex).__name__), dict(estimator=name, params=opt), observed=str(ex)[:200])
       continue
     need = ('_lambda', 'pos_bhat', 'neg_bhat', 'A', 'pos_vv', 'neg_vv')
